@@ -47,14 +47,14 @@ PLANS = {
     "C02": [job("modelrun", "native", 2, [], budget={"quick": 400000, "thorough": 8000000}), job("typevar", "native", 1, ["--layouts", "400"]), hist("big", 1, 40000, 300000), hist("realloc", 1, 480000, 3000000), hist("bound", 8, 480000, 7500000), hist("mutate", 3, 480000, 4500000), hist("ledger", 1, 480000, 3000000), hist("extreme", 2, 320000, 3000000),
             hist("extreme", 2, 320000, 3000000, mode="wrap"), job("realheap", "native", 2, [], budget={"quick": 400000, "thorough": 6000000})],
     "C03": [job("modelrun", "native", 2, [], budget={"quick": 400000, "thorough": 8000000}), hist("big", 1, 40000, 300000), hist("realloc", 1, 480000, 3000000), hist("evict", 14, 480000, 9000000), hist("mixed", 2, 480000, 4500000)],
-    "C04": [job("hashscale", "native", 1, [], budget={"quick": 200, "thorough": 50000}, budget_arg="rounds"), job("aliaskeys", "native", 2, [], budget={"quick": 400000, "thorough": 8000000}), job("bigcap", "native", 1, [], budget={"quick": 2000, "thorough": 100000}, budget_arg="max-n"), hist("big", 1, 40000, 300000), hist("map", 12, 480000, 9000000), hist("realloc", 2, 480000, 4500000), hist("mixed", 2, 480000, 4500000)],
+    "C04": [job("modelrun", "native", 2, [], budget={"quick": 400000, "thorough": 8000000}), job("hashscale", "native", 1, [], budget={"quick": 200, "thorough": 50000}, budget_arg="rounds"), job("aliaskeys", "native", 2, [], budget={"quick": 400000, "thorough": 8000000}), job("bigcap", "native", 1, [], budget={"quick": 2000, "thorough": 100000}, budget_arg="max-n"), hist("big", 1, 40000, 300000), hist("map", 12, 480000, 9000000), hist("realloc", 2, 480000, 4500000), hist("mixed", 2, 480000, 4500000)],
     "C05": [job("inject", "native", 4, [], budget={"quick": 20000, "thorough": 500000}, budget_arg="cases"), job("modelrun", "native", 2, [], budget={"quick": 400000, "thorough": 8000000}), hist("big", 1, 40000, 300000), job("interleave", "native", 4, [], budget={"quick": 300000, "thorough": 5000000}), hist("order", 12, 480000, 9000000), hist("realloc", 2, 480000, 4500000), hist("mixed", 2, 480000, 4500000)],
     "C06": [job("typevar", "native", 2, [], budget={"quick": 1500000, "thorough": 30000000}), job("typevar", "asan", 1, [], budget={"quick": 300000, "thorough": 5000000}, reports_to=MEM),
             job("typevar", "miri", 2, [], budget={"quick": 60, "thorough": 1500}, reports_to=MEM), hist("big", 1, 40000, 300000), hist("realloc", 1, 480000, 3000000), hist("ledger", 10, 480000, 6000000), hist("mixed", 2, 480000, 3000000),
             hist("ledger", 8, 100000, 2000000, mode="asan", reports_to=MEM),
             hist("ledger", 16, 300, 4000, mode="miri", reports_to=MEM, extra=["--bare", "1"]),
             enum_iter("native", 4, 5, False, tiers=("quick",)), enum_iter("native", 8, 8, False, tiers=("thorough",))],
-    "C07": [job("hashscale", "native", 1, [], budget={"quick": 200, "thorough": 50000}, budget_arg="rounds", reports_to=MEM), job("modelrun", "asan", 2, [], budget={"quick": 100000, "thorough": 2000000}, reports_to=MEM), job("modelrun", "miri", 4, [], budget={"quick": 150, "thorough": 2500}, reports_to=MEM),
+    "C07": [job("modelrun", "native", 2, [], budget={"quick": 400000, "thorough": 8000000}), job("hashscale", "native", 1, [], budget={"quick": 200, "thorough": 50000}, budget_arg="rounds", reports_to=MEM), job("modelrun", "asan", 2, [], budget={"quick": 100000, "thorough": 2000000}, reports_to=MEM), job("modelrun", "miri", 4, [], budget={"quick": 150, "thorough": 2500}, reports_to=MEM),
             job("aliaskeys", "asan", 1, [], budget={"quick": 100000, "thorough": 2000000}, reports_to=MEM), job("aliaskeys", "miri", 2, [], budget={"quick": 150, "thorough": 2500}, reports_to=MEM),
             job("interleave", "native", 4, [], budget={"quick": 300000, "thorough": 5000000}), job("interleave", "asan", 2, [], budget={"quick": 60000, "thorough": 1500000}, reports_to=MEM), hist("realloc", 10, 480000, 6000000), hist("map", 2, 480000, 3000000),
             hist("realloc", 10, 100000, 2000000, mode="asan", reports_to=MEM), hist("big", 2, 20000, 120000, mode="asan", reports_to=MEM), hist("big", 2, 50000, 600000),
